@@ -188,7 +188,7 @@ TThDone == Step("ThDone") /\ ThDone(Ev.p) /\ UNCHANGED <<stopCalled, hung>>
 
 TAllowCheck == Step("AllowCheck") /\ AllowCheck(Ev.p) /\ UNCHANGED <<stopCalled, hung>>
 \* the listener did not take the connection at all
-TRefused == Step("Refused") /\ AllowCheck(Ev.p) /\ conn'[Ev.p] = "rejected" /\ UNCHANGED <<stopCalled, hung>>
+TRefused == Step("Refused") /\ Refuse(Ev.p) /\ UNCHANGED <<stopCalled, hung>>
 \* the syncer closed the connection before the handshake
 TRejected == Step("Rejected") /\ conn[Ev.p] = "rejected" /\ Skip /\ UNCHANGED <<stopCalled, hung>>
 THandshake == Step("Handshake") /\ Handshake(Ev.p) /\ UNCHANGED <<stopCalled, hung>>
